@@ -201,6 +201,11 @@ class Parser:
             t = None
             if self.at(":"):
                 self.eat(); t = self.ty()
+            if self.at(";") and p[0] == "pvar":
+                # `let x;` — declared now, definitely assigned before use (rustc checks that): a placeholder value of the
+                # declared / configured type keeps the variable in scope for the state of the loops that assign it
+                self.eat()
+                return ("let", p, t, ("int", 0, None)), False
             self.eat("=")
             e = self.expr()
             self.eat(";")
@@ -227,7 +232,8 @@ class Parser:
             return ("break",), False
         if self.at("for"):
             self.eat()
-            var = self.eat()[1]
+            var_pat = self.pat()
+            var = var_pat[1] if var_pat[0] == "pvar" else None
             self.eat("in")
             it = self.expr(nostruct=True)
             rev = False
@@ -235,15 +241,31 @@ class Parser:
                 rev, it = True, it[1]
             while it[0] == "paren":
                 it = it[1]
+            if it[0] == "mcall" and it[2] == "by_ref" and not it[3] and not rev:
+                b = self.block()
+                return ("whilelet", var_pat, ("mcall", it[1], "next", []), b), False
             if it[0] == "mcall" and it[2] == "iter" and not it[3] and not rev:
+                if var is None:
+                    raise Unsupported("`for` over an array with a tuple pattern")
                 b = self.block()
                 return ("for", var, ("int", 0, None), ("arrlen", it[1]), False, b, it[1]), False
             if it[0] != "range":
-                raise Unsupported("`for` over anything but a range `a..b`, `(a..b).rev()` or `array.iter()`")
+                raise Unsupported("`for` over anything but a range `a..b`, `(a..b).rev()`, `array.iter()` or `x.by_ref()`")
+            if var is None:
+                raise Unsupported("`for` over a range with a tuple pattern")
             b = self.block()
             return ("for", var, it[1], it[2], rev, b, None), False
-        if self.at("while"):
-            raise Unsupported("`while let` loops are outside the translated subset")
+        if self.at("while") and self.peek(1)[1] == "let":
+            self.eat(); self.eat()
+            if self.eat()[1] != "Some":
+                raise Unsupported("`while let` with a pattern other than Some(..)")
+            self.eat("(")
+            pt = self.pat()
+            self.eat(")")
+            self.eat("=")
+            scrut = self.expr(nostruct=True)
+            b = self.block()
+            return ("whilelet", pt, scrut, b), False
         e = self.expr()
         if self.at("=", "+=", "-=", "*=", "/=", "%=", "&=", "|=", "^=", "<<=", ">>=") and self.peek()[0] == "op":
             op = self.eat()[1]
@@ -371,7 +393,9 @@ class Parser:
             if ctor != "Some":
                 raise Unsupported("`if let` with a pattern other than Some(x)")
             self.eat("(")
-            var = self.eat()[1]
+            var = self.pat()
+            if var[0] == "pvar":
+                var = var[1]
             self.eat(")")
             self.eat("=")
             scrut = self.expr(nostruct=True)
@@ -395,10 +419,35 @@ class Parser:
             scrut = self.expr(nostruct=True)
             self.eat("{")
             arms = []
+            if self.peek()[1] in ("Some", "None"):
+                # `match e { Some(p) => a, None => b }` (either order) is `if let Some(p) = e { a } else { b }`
+                some_arm = none_arm = pvar = None
+                while not self.at("}"):
+                    hd = self.eat()[1]
+                    if hd == "Some":
+                        self.eat("(")
+                        pvar = self.pat()
+                        if pvar[0] == "pvar":
+                            pvar = pvar[1]
+                        self.eat(")")
+                    elif hd != "None":
+                        raise Unsupported("match arm %s" % hd)
+                    self.eat("=>")
+                    body = self.block() if self.at("{") else ("block", [], self.expr())
+                    if hd == "Some":
+                        some_arm = body
+                    else:
+                        none_arm = body
+                    if self.at(","):
+                        self.eat()
+                self.eat("}")
+                if some_arm is None or none_arm is None:
+                    raise Unsupported("match on an Option without both arms")
+                return ("iflet", pvar, scrut, some_arm, none_arm)
             while not self.at("}"):
                 pk, pv = self.eat()
                 if pv not in ("true", "false"):
-                    raise Unsupported("match on anything but a bool")
+                    raise Unsupported("match on anything but a bool or an Option")
                 self.eat("=>")
                 arms.append((pv, self.expr()))
                 if self.at(","):
@@ -469,6 +518,9 @@ class Parser:
                 margs, depth = [], 0
                 first = self.expr()
                 margs.append(first)
+                if path[0] == "assert_eq" and self.at(","):          # assert_eq!(a, b, "message", …): the two operands
+                    self.eat()
+                    margs.append(self.expr())
                 while not self.at(")"):
                     self.eat()                                   # message tokens are skipped
                     if self.at("("):
@@ -697,7 +749,31 @@ class Emitter:
                     return "%s.%s" % (base, st["fieldmap"].get(e[2], e[2])), st["fields"][e[2]]
             if bty and bty[0] == "T" and e[2].isdigit():
                 return "%s.%d" % (base, int(e[2]) + 1), bty[1][int(e[2])]
+            if bty and bty[0] == "T" and len(bty[1]) == 2 and e[2] in ("start", "end"):     # a Range<usize>
+                return "%s.%d" % (base, 1 if e[2] == "start" else 2), bty[1][0]
             raise Unsupported("field access .%s on %r" % (e[2], bty))
+        if k == "closure":
+            # a closure literal passed to a function: a Lean lambda, monadic (`FM`) or pure (`FP`) as the callee expects
+            saved = dict(self.env)
+            names = []
+            for q in e[1]:
+                if q[0] != "pvar":
+                    raise Unsupported("closure with a tuple parameter")
+                self.env[q[1]] = (lname(q[1]), U)
+                names.append(lname(q[1]))
+            p2 = []
+            b, tb = self.expr(e[2], p2, None)
+            self.env = saved
+            if want == "FP":
+                if p2:
+                    raise Unsupported("effectful body in a closure that must be pure")
+                return "(fun %s => %s)" % (" ".join(names), b), "FP"
+            lines = []
+            self.flush(p2, lines, "")
+            body = "; ".join(l.strip() for l in lines if isinstance(l, str))
+            if any(not isinstance(l, str) for l in lines):
+                raise Unsupported("`?` inside a closure")
+            return "(fun %s => do %s%spure %s)" % (" ".join(names), body, "; " if body else "", b), "FM"
         if k == "veclit":
             vals = [self.expr(x, pre, W)[0] for x in e[1]]
             return "#[" + ", ".join(vals) + "]", A
@@ -791,6 +867,22 @@ class Emitter:
             t = self.fresh()
             pre.append(("try", t, v, self.wrap_return("none", ("O", None))))
             return t, ty[1]
+        if k == "iflet" and e[4] is not None:
+            if e[3][1] or e[4][1] or e[3][2] is None or e[4][2] is None:
+                raise Unsupported("`if let … else` expression with statements in a branch")
+            sv, sty = self.expr(e[2], pre)
+            if not (sty and sty[0] == "O"):
+                raise Unsupported("`if let Some` on a non-Option")
+            saved = dict(self.env)
+            arm = []
+            nm = self.bind_some(e[1], sty[1], arm, "")
+            p1, p2 = [], []
+            a, ta = self.expr(e[3][2], p1, want)
+            self.env = saved
+            b, tb = self.expr(e[4][2], p2, want or ta)
+            t = self.fresh()
+            pre.append(("optmatch", t, sv, nm, [l.strip() for l in arm], p1, a, p2, b))
+            return t, ta or tb
         if k == "if":
             return self.if_expr(e, pre, want)
         if k == "match":
@@ -918,6 +1010,19 @@ class Emitter:
 
     def mcall(self, e, pre, want):
         recv, name, args = e[1], e[2], e[3]
+        if name == "unwrap" and not args and recv[0] in ("call", "mcall"):
+            try:
+                rk, rextra = self.callee_key(("field", recv[1], recv[2])) if recv[0] == "mcall" else self.callee_key(recv[1])
+            except Unsupported:
+                rk, rextra = None, []
+            rent = (self.cfg.get("calls", {}).get(rk) or self.calls.get(rk)) if rk else None
+            if rent and rent.get("result"):
+                rargs = recv[3] if recv[0] == "mcall" else recv[2]
+                argtys = rent.get("args")
+                vals = [self.expr(a, pre, argtys[i] if argtys else None)[0] for i, a in enumerate(rargs)]
+                t = self.fresh()
+                pre.append("let %s ← unwrapRes (%s)" % (t, rent["lean"].format(*vals)))
+                return t, rent["ret"]
         # methods of primitive values
         try_key = None
         try:
@@ -929,6 +1034,10 @@ class Emitter:
         v, ty = self.expr(recv, pre)
         if name == "as_ref" and not args and ty and ty[0] == "O":
             return v, ty
+        if name == "clone" and not args:
+            return v, ty
+        if ty and ty[0] == "O" and name in ("is_none", "is_some") and not args:
+            return "(%s).%s" % (v, "isNone" if name == "is_none" else "isSome"), B
         if name == "map" and ty and ty[0] == "O" and len(args) == 1 and args[0][0] == "closure" and len(args[0][1]) == 1:
             # `opt.map(|pat| body)`: the body is evaluated only on `Some`
             cl = args[0]
@@ -972,6 +1081,13 @@ class Emitter:
                     t = self.fresh()
                     pre.append("let %s ← %s" % (t, code))
                     code = t
+                if ent.get("ret") not in (None, UNIT):
+                    if not ent.get("monadic"):
+                        t = self.fresh()
+                        pre.append("let %s := %s" % (t, code))           # evaluated once, on the receiver's OLD value
+                        code = t
+                    self.assign_place(recv, "%s.2" % code, pre)          # (value, new receiver)
+                    return "%s.1" % code, ent["ret"]
                 self.assign_place(recv, code, pre)
                 return "()", UNIT
             if ent:
@@ -1052,12 +1168,20 @@ class Emitter:
             nm, ty = self.env[place[1][0]]
             pre.append("let %s := %s" % (nm, val))
             return
+        if place[0] == "field" and not place[2].isdigit() and place[1] != ("path", ["self"]):
+            # a field of a local struct value: rebuild the struct
+            base, bty = self.expr(place[1], [], None)
+            st = self.structs.get(bty[1]) if (bty and bty[0] == "N") else None
+            if st and place[2] in st["fields"]:
+                self.assign_place(place[1], "{ %s with %s := %s }" % (base, st["fieldmap"].get(place[2], place[2]), val), pre)
+                return
         raise Unsupported("assignment to %r" % (place,))
 
     # --- statements
     def assigned(self, block, acc):
         for s in block[1]:
             if s[0] == "assign":
+                self.assigned_expr(s[3], acc)
                 p = s[1]
                 while p[0] in ("index", "paren") or (p[0] == "field" and p[1] != ("path", ["self"])):
                     p = p[1]
@@ -1071,59 +1195,72 @@ class Emitter:
                 self.assigned(s[2], acc)
             elif s[0] == "for":
                 self.assigned(s[5], acc)
+            elif s[0] == "whilelet":
+                self.assigned(s[3], acc)
+                self.assigned_expr(s[2], acc)
             elif s[0] == "let":
-                pass
+                self.assigned_expr(s[3], acc)
         if block[2] is not None:
             self.assigned_expr(block[2], acc)
         return acc
 
     def assigned_expr(self, e, acc):
-        if e[0] in ("mcall", "call", "try", "paren", "ref", "deref", "un", "cast"):
-            # state-changing calls may sit inside receivers and arguments (`self.flush(..).unwrap()`, `f(self.pop())?`)
-            subs = []
-            if e[0] == "mcall":
-                subs = [e[1]] + list(e[3])
-            elif e[0] == "call":
-                subs = list(e[2])
-            elif e[0] in ("try", "paren", "ref", "deref"):
-                subs = [e[1]]
-            elif e[0] == "un":
-                subs = [e[2]]
-            elif e[0] == "cast":
-                subs = [e[1]]
-            for x in subs:
-                if isinstance(x, tuple):
-                    self.assigned_expr(x, acc)
-        if e[0] == "if":
-            self.assigned(e[2], acc)
-            if e[3]:
-                self.assigned(e[3], acc)
-        elif e[0] == "blockexpr":
-            self.assigned(e[1], acc)
-        elif e[0] == "mcall" and e[1][0] == "path" and len(e[1][1]) == 1 and e[1][1][0] in self.env and \
-                isinstance(self.env[e[1][1][0]][1], tuple) and self.env[e[1][1][0]][1][0] == "N" and \
-                ((self.cfg.get("calls", {}).get("<%s>.%s" % (self.env[e[1][1][0]][1][1], e[2]))
-                  or self.calls.get("<%s>.%s" % (self.env[e[1][1][0]][1][1], e[2])) or {}).get("mutrecv")):
-            acc.add(self.env[e[1][1][0]][0])                         # a mutating method called on a local
-        elif e[0] in ("mcall", "call"):
+        """variables whose value an expression changes: through a state-changing call (table entries with `setvar`,
+        `mutself`, `mutarg`, `mutrecv`) anywhere inside it — receivers, arguments, conditions, scrutinees, branches —
+        or through assignments in blocks nested in it"""
+        if not isinstance(e, tuple) or not e:
+            return
+        k = e[0]
+        if k == "block":
+            self.assigned(e, acc)
+            return
+        if k in ("mcall", "call"):
+            key = None
             try:
-                key, _ = self.callee_key(("field", e[1], e[2])) if e[0] == "mcall" else self.callee_key(e[1])
+                key, _ = self.callee_key(("field", e[1], e[2])) if k == "mcall" else self.callee_key(e[1])
             except Unsupported:
-                return
-            ent = self.cfg.get("calls", {}).get(key) or self.calls.get(key)
+                key = None
+            ent = (self.cfg.get("calls", {}).get(key) or self.calls.get(key)) if key else None
+            if ent is None and k == "mcall":
+                # a mutating method called on a local or on a field (of a field …) of a local: the local changes
+                root = e[1]
+                while root[0] in ("paren", "ref") or (root[0] == "field" and root[1] != ("path", ["self"])):
+                    root = root[1]
+                saved_n = (self.n, self.nmatch)
+                try:
+                    _, lt = self.expr(e[1], [], None)
+                except Exception:
+                    lt = None
+                self.n, self.nmatch = saved_n                            # a probe: it emits nothing
+                if isinstance(lt, tuple) and lt[0] == "N":
+                    tk = "<%s>.%s" % (lt[1], e[2])
+                    tent = self.cfg.get("calls", {}).get(tk) or self.calls.get(tk)
+                    if tent and tent.get("mutrecv"):
+                        if root[0] == "path" and len(root[1]) == 1 and root[1][0] in self.env:
+                            acc.add(self.env[root[1][0]][0])
+                        elif root[0] == "field" and root[1] == ("path", ["self"]):
+                            acc.add("self_" + root[2])
             if ent and ent.get("setvar"):
                 acc.add(ent["setvar"])
             if ent and ent.get("mutself"):
                 for f in self.cfg["self"]["order"]:
                     acc.add("self_" + f)
             if ent and ent.get("mutarg") is not None:
-                p = e[3][ent["mutarg"]] if e[0] == "mcall" else e[2][ent["mutarg"]]
+                args = e[3] if k == "mcall" else e[2]
+                p = args[ent["mutarg"]]
                 while p[0] in ("ref", "paren"):
                     p = p[1]
                 if p[0] == "field" and p[1] == ("path", ["self"]):
                     acc.add("self_" + p[2])
                 elif p[0] == "path":
                     acc.add(self.env[p[1][0]][0] if p[1][0] in self.env else p[1][0])
+        for x in e[1:]:
+            if isinstance(x, tuple):
+                self.assigned_expr(x, acc)
+            elif isinstance(x, list):
+                for y in x:
+                    if isinstance(y, tuple):
+                        self.assigned_expr(y, acc)
 
     def is_err(self, e):
         """`Err(<anything>)`: the function returns a `Result`"""
@@ -1167,6 +1304,8 @@ class Emitter:
             return ("block", list(b[1]) + [("expr", b[2])], None)
         if b is not None and b[2] is not None and b[2][0] == "iflet" and b[2][4] is None:
             return ("block", list(b[1]) + [("expr", b[2])], None)
+        if b is not None and b[2] is not None and b[2][0] == "iflet" and self.norm(b[2][3])[2] is None and self.norm(b[2][4])[2] is None:
+            return ("block", list(b[1]) + [("expr", b[2])], None)
         return b
 
     def diverges(self, block):
@@ -1190,6 +1329,17 @@ class Emitter:
             elif p[0] == "try":
                 # `?` on Option: the rest of the function is the `some` continuation — handled by the caller
                 out.append(("try", p[1], p[2], ind, p[3]))
+            elif p[0] == "optmatch":
+                _, t, v, nm, binds, p1, a, p2, b = p
+                out.append(ind + "let %s ← (match %s with" % (t, v))
+                out.append(ind + "  | some %s => do" % nm)
+                for bl in binds:
+                    out.append(ind + "      " + bl)
+                self.flush(p1, out, ind + "      ")
+                out.append(ind + "      pure %s" % a)
+                out.append(ind + "  | none => do")
+                self.flush(p2, out, ind + "      ")
+                out.append(ind + "      pure %s)" % b)
             elif p[0] == "optmap":
                 _, t, v, binds, p2, b = p
                 out.append(ind + "let %s ← (match %s with" % (t, v))
@@ -1234,7 +1384,8 @@ class Emitter:
             pre = []
             k = s[0]
             if k == "let":
-                hint = s[2]
+                hint = self.alias(s[2]) if (s[2] is not None and getattr(self, "alias", None)) else s[2]
+                s = (s[0], s[1], hint, s[3])
                 if hint is None and s[1][0] == "pvar":
                     hint = self.cfg.get("local_types", {}).get(s[1][1])        # an untyped literal whose type rustc infers later
                 v, ty = self.expr(s[3], pre, hint)
@@ -1257,6 +1408,9 @@ class Emitter:
             elif k == "for":
                 self.for_stmt(s, (stmts[idx + 1:], tail), out, ind, is_fn_body)
                 return
+            elif k == "whilelet":
+                self.whilelet_stmt(s, (stmts[idx + 1:], tail), out, ind, is_fn_body)
+                return
             elif k == "return" and s[1] is not None and self.ok_value(s[1]) is not None:
                 v, ty = self.expr(self.ok_value(s[1]), pre, self.ret)
                 self.flush(pre, out, ind)
@@ -1276,8 +1430,9 @@ class Emitter:
                     rest = (stmts[idx + 1:], tail)
                     if self.if_stmt(e, rest, out, ind, is_fn_body):
                         return
-                elif e[0] == "iflet" and e[4] is not None:
-                    raise Unsupported("`if let … else` that is not the last expression of its block")
+                elif e[0] == "iflet" and (e[4] is not None or self.assigned(self.norm(e[3]), set())):
+                    if self.iflet_stmt(e, (stmts[idx + 1:], tail), out, ind, is_fn_body):
+                        return
                 elif e[0] == "iflet":
                     # `if let Some(x) = e { body }` where the body assigns nothing and leaves only through `return Err(..)`
                     # (a fault propagates through the monad, so the body is a unit-valued block)
@@ -1289,10 +1444,12 @@ class Emitter:
                     if not (sty and sty[0] == "O"):
                         raise Unsupported("`if let Some` on a non-Option")
                     out.append(ind + "match %s with" % sv)
-                    out.append(ind + "| some %s => do" % lname(e[1]))
                     saved = dict(self.env)
-                    self.env[e[1]] = (lname(e[1]), sty[1])
-                    self.stmts(body[1], None, out, ind + "    ", False)
+                    arm = []
+                    nm = self.bind_some(e[1], sty[1], arm, ind + "    ")
+                    out.append(ind + "| some %s => do" % nm)
+                    out.extend(arm)
+                    self.scoped([], body[1], None, out, ind + "    ", False)
                     out.append(ind + "    pure ()")
                     self.env = saved
                     out.append(ind + "| none => pure ()")
@@ -1303,6 +1460,10 @@ class Emitter:
                     self.stmts(e[1][1], None, out, ind, False)
                     if out and isinstance(out[-1], str) and out[-1].strip().startswith("return"):
                         return
+                elif e[0] == "macro" and e[1] == "assert_eq" and len(e[2]) == 2:
+                    c, _ = self.binop(("bin", "==", e[2][0], e[2][1]), pre, B)
+                    self.flush(pre, out, ind)
+                    out.append(ind + "gAssert %s" % c)
                 elif e[0] == "macro":
                     if e[1] in ("assert", "debug_assert") and e[1] == "assert":
                         c, _ = self.expr(e[2][0], pre, B)
@@ -1337,9 +1498,11 @@ class Emitter:
             if not (sty and sty[0] == "O"):
                 raise Unsupported("`if let Some` on a non-Option")
             out.append(ind + "match %s with" % sv)
-            out.append(ind + "| some %s => do" % lname(tail[1]))
             saved = dict(self.env)
-            self.env[tail[1]] = (lname(tail[1]), sty[1])
+            arm = []
+            nm = self.bind_some(tail[1], sty[1], arm, ind + "    ")
+            out.append(ind + "| some %s => do" % nm)
+            out.extend(arm)
             self.stmts(tail[3][1], tail[3][2], out, ind + "    ", is_fn_body)
             self.env = dict(saved)
             out.append(ind + "| none => do")
@@ -1356,10 +1519,14 @@ class Emitter:
                 pre.append("gTry %s" % v)                              # the callee's io::Result is this function's result
                 v, ty = None, UNIT
             self.flush(pre, out, ind)
+            if isinstance(is_fn_body, str):
+                raise Unsupported("a value at the end of a nested statement block")
             if is_fn_body:
                 out.append(ind + self.wrap_return(v, ty))
             else:
                 out.append(ind + "pure %s" % v)
+        elif isinstance(is_fn_body, str):
+            out.append(ind + is_fn_body)
         elif is_fn_body:
             out.append(ind + self.fallthrough())
 
@@ -1414,6 +1581,129 @@ class Emitter:
             return
         self.assign_place(place, v, pre)
 
+    def iflet_stmt(self, e, rest, out, ind, is_fn_body):
+        """`if let Some(p) = e { … } [else { … }]` / `match e { Some(p) => …, None => … }` as a statement.  Returns True when
+        the rest of the block has been emitted inside the arms."""
+        _, var, scrut, some_b, none_b = e
+        some_b = self.norm(some_b)
+        none_b = self.norm(none_b) if none_b is not None else ("block", [], None)
+        pre = []
+        sv, sty = self.expr(scrut, pre)
+        self.flush(pre, out, ind)
+        if not (sty and sty[0] == "O"):
+            raise Unsupported("`if let Some` / `match` on a non-Option")
+        d1, d2 = self.diverges(some_b), self.diverges(none_b)
+        valued = some_b[2] is not None or none_b[2] is not None
+        if valued and (rest[0] or rest[1] is not None):
+            raise Unsupported("`match` with a value that is not the last expression of its block")
+        saved = dict(self.env)
+        if not valued and not d1 and not d2:
+            vs = sorted(self.in_scope(self.assigned(some_b, set()) | self.assigned(none_b, set())))
+            pat = "()" if not vs else (vs[0] if len(vs) == 1 else "(" + ", ".join(vs) + ")")
+            out.append(ind + "let %s ← (match %s with" % (pat, sv))
+            arm = []
+            nm = self.bind_some(var, sty[1], arm, ind + "      ")
+            out.append(ind + "  | some %s => do" % nm)
+            out.extend(arm)
+            if self.contains_return(some_b) or self.contains_return(none_b):
+                raise Unsupported("`return` inside an `if let` arm that otherwise continues")
+            self.scoped(vs, some_b[1], None, out, ind + "      ", "pure %s" % pat)
+            self.env = dict(saved)
+            out.append(ind + "  | none => do")
+            self.scoped(vs, none_b[1], None, out, ind + "      ", "pure %s)" % pat)
+            self.env = saved
+            return False
+        # a valued match in tail position, or at least one arm leaves: the rest of the block goes into the arms that continue
+        out.append(ind + "match %s with" % sv)
+        arm = []
+        nm = self.bind_some(var, sty[1], arm, ind + "    ")
+        out.append(ind + "| some %s => do" % nm)
+        out.extend(arm)
+        n0 = len(out)
+        if d1 or valued:
+            self.stmts(some_b[1], some_b[2], out, ind + "    ", is_fn_body)
+        else:
+            self.stmts(list(some_b[1]) + list(rest[0]), rest[1], out, ind + "    ", is_fn_body)
+        if len(out) == n0:
+            out.append(ind + "    pure ()")
+        self.env = dict(saved)
+        out.append(ind + "| none => do")
+        n0 = len(out)
+        if d2 or valued:
+            self.stmts(none_b[1], none_b[2], out, ind + "    ", is_fn_body)
+        else:
+            self.stmts(list(none_b[1]) + list(rest[0]), rest[1], out, ind + "    ", is_fn_body)
+        if len(out) == n0:
+            out.append(ind + "    pure ()")
+        self.env = saved
+        return True
+
+    def bind_some(self, pat, ty, out, ind):
+        """the `x` of `Some(x)`: a name or a tuple pattern; returns the Lean binder used in the match arm"""
+        if isinstance(pat, str):
+            self.env[pat] = (lname(pat), ty)
+            return lname(pat)
+        self.nmatch += 1
+        nm = "some%d" % self.nmatch
+        self.bind_pat(pat, nm, ty, out, ind)
+        return nm
+
+    def whilelet_stmt(self, st, rest, out, ind, is_fn_body):
+        """`while let Some(pat) = e { body }`: as `while`, the scrutinee is evaluated at the start of every iteration (with
+        its effects on the state) and the loop is left when it is `None`"""
+        fuels = self.cfg.get("fuel", [])
+        if self.nloops >= len(fuels):
+            raise Unsupported("loop %d has no configured iteration bound" % (self.nloops + 1))
+        fuel = fuels[self.nloops]
+        self.nloops += 1
+        acc = self.assigned(st[3], set())
+        self.assigned_expr(st[2], acc)
+        vs = sorted(self.in_scope(acc))
+        pat = "()" if not vs else (vs[0] if len(vs) == 1 else "(" + ", ".join(vs) + ")")
+        rty = self.cfg["_rty"]
+        lr = "lr%d" % self.nloops
+        out.append(ind + "let %s ← loopM (ρ := %s) (%s) (fun %s => do" % (lr, rty, fuel, pat))
+        saved_env, saved_loop = dict(self.env), self.loop
+        self.loop = pat
+        pre = []
+        sv, sty = self.expr(st[2], pre)
+        self.flush(pre, out, ind + "    ")
+        if not (sty and sty[0] == "O"):
+            raise Unsupported("`while let Some` on a non-Option")
+        out.append(ind + "    match %s with" % sv)
+        out.append(ind + "    | none => pure (Ctl.brk %s)" % pat)
+        arm = []
+        nm = self.bind_some(st[1] if st[1][0] != "pvar" else st[1][1], sty[1], arm, ind + "        ")
+        out.append(ind + "    | some %s => do" % nm)
+        out.extend(arm)
+        body = self.norm(st[3])
+        if body[2] is not None:
+            raise Unsupported("loop body ending in a value")
+        self.scoped(vs, body[1], None, out, ind + "        ", True)
+        out[-1] = out[-1] + ") " + pat if False else out[-1]
+        out.append(ind + "    ) %s" % pat)
+        self.env, self.loop = saved_env, saved_loop
+        has_ret = self.contains_return(st[3])
+        if not is_fn_body:
+            if has_ret:
+                raise Unsupported("`return` inside a loop that is nested in a non-final block")
+            out.append(ind + "let %s ← (match %s with | .brk st => pure st | .next _ => fault .fuel | .ret _ => fault .fuel)" % (pat, lr))
+            self.stmts(rest[0], rest[1], out, ind, is_fn_body)
+            return
+        out.append(ind + "match %s with" % lr)
+        if not has_ret:
+            out.append(ind + "| .ret _ => fault .fuel")
+        elif self.loop is not None:
+            out.append(ind + "| .ret r => pure (Ctl.ret r)")
+        else:
+            out.append(ind + "| .ret r => return r")
+        out.append(ind + "| .next _ => fault .fuel")
+        out.append(ind + "| .brk %s => do" % pat)
+        n0 = len(out)
+        self.stmts(rest[0], rest[1], out, ind + "  ", is_fn_body)
+        if len(out) == n0:
+            out.append(ind + "  pure ()")
+
     def while_stmt(self, st, rest, out, ind, is_fn_body):
         """`while c { body }` / `loop { body }`: a bounded iteration of a step function over the variables the body assigns.
         The step returns `Ctl.next s` (iterate), `Ctl.brk s` (condition false / `break`) or `Ctl.ret r` (`return r`)."""
@@ -1436,12 +1726,14 @@ class Emitter:
         body = self.norm(st[2])
         if body[2] is not None:
             raise Unsupported("loop body ending in a value")
-        self.stmts(body[1], None, out, ind + "      ", True)
+        self.scoped(vs, body[1], None, out, ind + "      ", True)
         out.append(ind + "    else do")
         out.append(ind + "      pure (Ctl.brk %s)) %s" % (pat, pat))
         self.env, self.loop = saved_env, saved_loop
         has_ret = self.contains_return(st[2])
-        if not is_fn_body:
+        if isinstance(is_fn_body, str) and has_ret and self.loop is None:
+            raise Unsupported("`return` inside a loop that is nested in a non-final block")
+        if not is_fn_body or (isinstance(is_fn_body, str) and not has_ret):
             # inside a nested block (an `if` branch that goes on afterwards): the loop must not `return`; its final state
             # is rebound and the enclosing block continues
             if has_ret:
@@ -1466,6 +1758,25 @@ class Emitter:
         if len(out) == n0:
             out.append(ind + "  pure ()")
 
+    def scoped(self, vs, stmts, tail, out, ind, cont):
+        """emit a nested block whose effect on the enclosing scope is the tuple `vs`; fail closed when the emitted block
+        rebinds a variable of the enclosing scope that is NOT in `vs` (the change would be lost silently)"""
+        known = {v[0] for v in self.env.values()}
+        if self.selfmut:
+            known |= {"self_" + f for f in self.cfg["self"]["order"]}
+        n0 = len(out)
+        self.stmts(stmts, tail, out, ind, cont)
+        tracked = set(vs)
+        for l in out[n0:]:
+            if not isinstance(l, str):
+                continue
+            mm = re.match(r"\s*let\s+(.+?)\s*(:=|←)", l)
+            if not mm:
+                continue
+            for nm in re.findall(r"[A-Za-z_][\w']*", mm.group(1)):
+                if nm in known and nm not in tracked:
+                    raise Unsupported("variable `%s` is changed inside a nested block but is not part of the state that flows out of it" % nm)
+
     def in_scope(self, names):
         """of the assigned names, those that denote variables declared OUTSIDE the block (locals of the block itself are
         not part of the state that flows out of it)"""
@@ -1479,10 +1790,17 @@ class Emitter:
         pre = []
         a, _ = self.expr(lo, pre, U)
         if arr is not None:
-            arrv, arrt = self.expr(arr, pre, None)
-            if arrt != A:
+            if arr == ("path", ["self"]) and self.cfg.get("self", {}).get("rust"):
+                arrv, arrt = (self.self_value() if self.selfmut else self.cfg["self"]["var"]), ("N", self.cfg["self"]["rust"])
+            else:
+                arrv, arrt = self.expr(arr, pre, None)
+            if arrt == ("N", "IntVector"):
+                # `for x in v.iter()` over an IntVector: `AccessIter` yields `v.get(i)` for `i` in `0..v.len()`
+                b = "%s.len" % arrv
+            elif arrt != A:
                 raise Unsupported("`for x in e.iter()` over %r" % (arrt,))
-            b = "%s.size" % arrv
+            else:
+                b = "%s.size" % arrv
         else:
             b, _ = self.expr(hi, pre, U)
         self.flush(pre, out, ind)
@@ -1500,7 +1818,9 @@ class Emitter:
         if not rev:
             nxt = "(" + ", ".join(["%s + 1" % cnt] + vs) + ")" if vs else "(%s + 1)" % cnt
             out.append(ind + "    if (decide (%s < for_hi%d)) then do" % (cnt, n))
-            if arr is not None:
+            if arr is not None and arrt == ("N", "IntVector"):
+                out.append(ind + "      let %s ← gen_IntVector_get m %s %s" % (lname(var), arrv, cnt))
+            elif arr is not None:
                 out.append(ind + "      let %s := rd %s %s" % (lname(var), arrv, cnt))      # the element (in range: %s < size)
             else:
                 out.append(ind + "      let %s := %s" % (lname(var), cnt))
@@ -1513,7 +1833,7 @@ class Emitter:
         nb = self.norm(body)
         if nb[2] is not None:
             raise Unsupported("loop body ending in a value")
-        self.stmts(nb[1], None, out, ind + "      ", True)
+        self.scoped(vs + [lname(var)], nb[1], None, out, ind + "      ", True)
         out.append(ind + "    else do")
         out.append(ind + "      pure (Ctl.brk %s)) %s" % (pat, ("(" + ", ".join(["for_lo%d" % n if not rev else "for_hi%d" % n] + vs) + ")") if vs
                                                         else ("for_lo%d" % n if not rev else "for_hi%d" % n)))
@@ -1580,6 +1900,8 @@ class Emitter:
                 return True
             if s[0] == "for" and self.contains_return(s[5]):
                 return True
+            if s[0] == "whilelet" and self.contains_return(s[3]):
+                return True
             if s[0] == "expr" and in_expr(s[1]):
                 return True
         return block[2] is not None and in_expr(block[2])
@@ -1623,6 +1945,21 @@ class Emitter:
             return True
         if then_b[2] is not None or (else_b and else_b[2] is not None):
             raise Unsupported("`if` statement with a value")
+        if else_b is not None and (self.diverges(then_b) != self.diverges(else_b)):
+            # exactly one branch leaves (return / break): the other one continues with the rest of the block
+            if then_b[2] is not None or else_b[2] is not None:
+                raise Unsupported("`if` statement with a value")
+            div, cont, cond = (then_b, else_b, c) if self.diverges(then_b) else (else_b, then_b, "(!%s)" % c)
+            out.append(ind + "if %s then do" % cond)
+            saved = dict(self.env)
+            self.stmts(div[1], None, out, ind + "  ", is_fn_body)
+            self.env = dict(saved)
+            out.append(ind + "else do")
+            n0 = len(out)
+            self.stmts(list(cont[1]) + list(rest[0]), rest[1], out, ind + "  ", is_fn_body)
+            if len(out) == n0:
+                out.append(ind + "  pure ()")
+            return True
         if self.diverges(then_b) or (else_b and self.diverges(else_b)):
             raise Unsupported("`if` with a returning branch and an else branch")
         vs = set()
@@ -1639,13 +1976,10 @@ class Emitter:
             out.append(ind + "let %s ← (if %s then do" % (r, c))
             saved = dict(self.env)
             self.nested_opt += 1
-            self.stmts(then_b[1], None, out, ind + "    ", False)
-            out.append(ind + "    pure (some %s)" % pat)
+            self.scoped(vs, then_b[1], None, out, ind + "    ", "pure (some %s)" % pat)
             self.env = dict(saved)
             out.append(ind + "  else do")
-            if else_b:
-                self.stmts(else_b[1], None, out, ind + "    ", False)
-            out.append(ind + "    pure (some %s))" % pat)
+            self.scoped(vs, else_b[1] if else_b else [], None, out, ind + "    ", "pure (some %s))" % pat)
             self.nested_opt -= 1
             self.env = saved
             out.append(ind + "match %s with" % r)
@@ -1656,15 +1990,40 @@ class Emitter:
             if len(out) == n0:
                 out.append(ind + "  pure ()")
             return True
+        has_ret = self.contains_return(then_b) or (else_b is not None and self.contains_return(else_b))
+        if has_ret:
+            # a `return` somewhere inside a branch that otherwise continues: the branches yield `Ctl.brk state` to go on
+            # and `Ctl.ret r` to return `r` from the function
+            if self.contains_break(then_b) or (else_b is not None and self.contains_break(else_b)):
+                raise Unsupported("`break` and `return` inside the same nested `if`")
+            self.nmatch += 1
+            cv = "ctl%d" % self.nmatch
+            outer_loop = self.loop
+            out.append(ind + "let %s ← (if %s then do" % (cv, c))
+            saved = dict(self.env)
+            self.loop = pat
+            self.scoped(vs, then_b[1], None, out, ind + "    ", "pure (Ctl.brk %s)" % pat)
+            self.env = dict(saved)
+            out.append(ind + "  else do")
+            self.scoped(vs, else_b[1] if else_b else [], None, out, ind + "    ", "pure (Ctl.brk %s)" % pat)
+            out[-1] = out[-1] + ")"
+            self.loop = outer_loop
+            self.env = saved
+            out.append(ind + "match (%s : Ctl _ %s) with" % (cv, self.cfg["_rty"]))
+            out.append(ind + ("| .ret r => pure (Ctl.ret r)" if outer_loop is not None else "| .ret r => return r"))
+            out.append(ind + "| .next _ => fault .fuel")
+            out.append(ind + "| .brk %s => do" % pat)
+            n0 = len(out)
+            self.stmts(rest[0], rest[1], out, ind + "  ", is_fn_body)
+            if len(out) == n0:
+                out.append(ind + "  pure ()")
+            return True
         out.append(ind + "let %s ← (if %s then do" % (pat, c))
         saved = dict(self.env)
-        self.stmts(then_b[1], None, out, ind + "    ", False)
-        out.append(ind + "    pure %s" % pat)
+        self.scoped(vs, then_b[1], None, out, ind + "    ", "pure %s" % pat)
         self.env = dict(saved)
         out.append(ind + "  else do")
-        if else_b:
-            self.stmts(else_b[1], None, out, ind + "    ", False)
-        out.append(ind + "    pure %s)" % pat)
+        self.scoped(vs, else_b[1] if else_b else [], None, out, ind + "    ", "pure %s)" % pat)
         self.env = saved
         return False
 
@@ -1755,6 +2114,7 @@ def translate(src, cfg, calls, consts, structs):
         rty0 = "(%s × Elems)" % rty0
     cfg = dict(cfg, _rty=rty0)
     em.cfg = cfg
+    em.alias = alias
     body = Parser(lex(body_txt)).block()
     out = []
     if em.selfmut:
